@@ -94,6 +94,32 @@ pub fn ord_ui<const NA: usize, const NB: usize>(sb: Sign) {
     assert!(y.num_cmp(&x) == want.reverse() && y.num_partial_cmp(&x) == Some(want.reverse()));
 }
 
+/// NumOrd between integers and LITERAL floats (no symbolic input: the symbolic comparison shifts by a
+/// data-dependent amount and is a probe): a grid of small integers against fractions, halves and integers
+pub fn ord_float_literals() {
+    let ints: [i64; 7] = [0, 1, -1, 2, 3, -3, 1 << 40];
+    let floats: [f32; 9] = [0.25, -0.25, 0.5, 1.0, 1.5, -1.5, 2.5, 1099511627776.0, -0.0];
+    let mut i = 0;
+    while i < ints.len() {
+        let v = ints[i];
+        let x = if v == 0 { ibig(POS, &[]) } else { ibig(if v < 0 { NEG } else { POS }, &[v.unsigned_abs() as Word]) };
+        let mut j = 0;
+        while j < floats.len() {
+            let f = floats[j];
+            let want = (v as f64).partial_cmp(&(f as f64));
+            assert!(x.num_partial_cmp(&f) == want, "IBig vs f32 order differs from the exact order");
+            assert!(x.num_partial_cmp(&(f as f64)) == want, "IBig vs f64 order differs from the exact order");
+            if v >= 0 {
+                let u = if v == 0 { ubig(&[]) } else { ubig(&[v as Word]) };
+                assert!(u.num_partial_cmp(&f) == want, "UBig vs f32 order differs from the exact order");
+            }
+            j += 1;
+        }
+        i += 1;
+    }
+    assert!(ubig(&[1]).num_partial_cmp(&f32::NAN).is_none());
+}
+
 fn rec_eq(p: &Rec, q: &Rec) -> bool {
     if p.n != q.n {
         return false;
